@@ -22,7 +22,7 @@ CLAIMED["C02"] = ("Unbounded proof of the mechanisms that keep a snapshot frozen
   "nested child stacks over; ExecuteBatch drops the cached snapshot in the same critical section; collection.snapshot copies the section contents into a fresh stack and changes no section; "
   "ChildCollectionSnapshot and Store.snapshot add exactly one count; Footer.DecRef releases locations and child footers only at count zero; Footer.Get returns a private copy unless NoCopyValue.",
   "iterator.SeekTo is proved not to release the iterator's closer. Not under contract: the mmap layer below mmapRef (OS keeps an unlinked mapped file readable: assumed). Whole-history "
-  "statement not machine-checked. Fixed S12, S17, S24 (witness only).", "13/C02")
+  "statement not machine-checked. Fixed S12, S17, S24 (witness only), S29.", "13/C02")
 CLAIMED["C03"] = ("Unbounded proof at lock granularity (guarded fields are havocked at every acquire; only the lock invariant is known): ExecuteBatch publishes a batch in exactly one critical "
   "section - new top = old top ++ [batch segment], child segments in the same new stack (nested child stacks carried over), cached snapshot dropped, other sections untouched - and publishes "
   "nothing on its early exits; Snapshot() reads all sections inside one critical section and changes none; the merger callback swaps mid/top in one critical section; every access to a guarded "
@@ -50,7 +50,7 @@ CLAIMED["C07"] = ("Unbounded proof of the structural half of compaction: mergeSe
   "of the SAME incarnation followed by the incoming ones (children compacted fully); spliceFooter restores exactly the retained prefix; the footer written by writeSegments has one segment, "
   "the incarnation and the children of its stack; merge()/writeSegments call mergeInto with tombstones kept unless nothing lies below; failed rounds clean up the file they started.",
   "Content equality of the merged segment is mergeInto's trusted contract (bounded stand-in under C08/C09); that a SUCCESSFUL full compaction schedules the superseded file (seed C07/2) "
-  "and absence of tombstones after full compaction (optimizeTail copies them) are not decided. Fixed S9, S10, S11.", "13/C07")
+  "and absence of tombstones after full compaction (optimizeTail copies them) are not decided. Fixed S9, S10, S11, S28 (compaction without incoming data dropped the children).", "13/C07")
 CLAIMED["C08"] = ("Unbounded proof for point reads and Current: get/getMerged fold the operands from the newest level down, each applied exactly once over the value of the levels strictly below "
   "(or base, or lower level); iteratorSingle.Current and iterator.Current/CurrentEx resolve a Merge entry by the same read; merge() passes each child the base of the SAME incarnation and "
   "keeps tombstones unless nothing lies below; the compaction stack has no lower level (operands are not folded twice)." + BOUNDED,
@@ -67,7 +67,7 @@ CLAIMED["C11"] = ("Unbounded proof, level by level over the child trees (recursi
   "new child a strictly larger incarnation number; buildNewFooter, mergeSegStacks, spliceFooter, writeSegments, merge and revertToSnapshot preserve the set of children, keep persisted "
   "segments only for the same incarnation and drop deleted children; child maps never hold nil; ChildCollectionSnapshot counts.",
   "Each activation proves its level and the level below; the tree-wide statement is by induction over activations (not machine-checked); collection/footer trees are assumed trees (ghost "
-  "depth) and a call on a child is assumed to touch only its subtree. appendChildLLSnapshot (S15) not under contract. Known finding S16b; fixed S9, S10, S11.", "13/C11")
+  "depth) and a call on a child is assumed to touch only its subtree. appendChildLLSnapshot (S15) not under contract. Known finding S16b; fixed S9, S10, S11, S28.", "13/C11")
 CLAIMED["C12"] = ("Unbounded proof of the history chain: buildNewFooter links every new footer to the footer that was current; ScanFooter records the position a footer was found at; "
   "snapshotPrevious returns what the scan finds at exactly the linked offset of the same file; SnapshotRevert installs a footer with exactly the locations and ALL children of the target, "
   "durably appended, linked to the footer that was current.",
@@ -84,7 +84,7 @@ CLAIMED["C15"] = ("Unbounded proof of the reference accounting primitives: FileR
   "the next level is released exactly once; counts above zero keep file, mapping and locations; Store.snapshot and ChildCollectionSnapshot add exactly one count; failed compaction rounds "
   "schedule exactly the file they started for removal.",
   "Exact accounting across shared mappings (SegmentLocs.AddRef/DecRef) trusted; per-path balance of persist/compact not under contract. iterator.SeekTo releases nothing (ghost count "
-  "of Close calls). Fixed S12, S17, S24 (witness only).", "13/C15")
+  "of Close calls). Fixed S12, S17, S24 (witness only), S29 (a stack releases its child stacks).", "13/C15")
 CLAIMED["C16"] = ("Unbounded proof of the safety half: lock invariant 'at most MaxPreMergerBatches segments in top' at every release of collection.m; after Close, NewBatch/Snapshot/Get/"
   "ExecuteBatch(non-empty) return ErrClosed; Close closes stopCh and broadcasts both condition variables inside the critical section and leaves no cached snapshot; the merger callback and "
   "ResetStackDirtyTop wake blocked writers; ExecuteBatch's wait loop re-checks; the merger's wait for the persister also listens on stopCh.",
